@@ -795,10 +795,18 @@ pub fn run_case(line: &str) -> (String, Vec<String>) {
     let scheds = if delivered.len() > BIG { big_schedules(&mut rng, delivered.len()) } else { schedules(&mut rng, delivered.len()) };
     let mut base = run_parser(&c.fmt, &c.ty, &c.mode, mk(scheds[0].1.clone()), scheds[0].2);
     let base_text = base.text(false);
+    let mut variant_note = String::new();
     for (name, ev, chunk) in scheds.iter().skip(1) {
         let o = run_parser(&c.fmt, &c.ty, &c.mode, mk(ev.clone()), *chunk).text(false);
         if o != base_text {
             fails.push(format!("C01:result depends on the read schedule: one-shot={} {}={}", clip(&base_text), name, clip(&o)));
+            variant_note = format!("|VARIANT:{}={}", name, o.chars().take(160).collect::<String>());
+            {
+                let vfin = o.rsplit('|').next().unwrap_or("");
+                if vfin.starts_with("E:syn:") && base.fin.starts_with("E:syn:") && vfin != base.fin {
+                    fails.push(format!("C08:error location depends on how the bytes arrive: one-shot {} but {} {}", base.fin, name, vfin));
+                }
+            }
             // the line/column oracle of the text formats applies to ASCII AIGER only
             fails.extend(crate::eng_cnf::variant_oracles(&delivered, fault, name, &o, c.expect.as_ref(), c.tok, c.fmt == "aag"));
             break;
@@ -918,6 +926,7 @@ pub fn run_case(line: &str) -> (String, Vec<String>) {
     }
     let mut text = digest(base_text);
     if wmis { text.push_str("|W:mismatch"); }
+    text.push_str(&variant_note);
     (text, fails)
 }
 
